@@ -497,7 +497,7 @@ def minimize_subcircuits(
             pattern: int = subcircuit.patterns[output]
             if pattern in found_patterns:
                 outputs_mapping[output] = found_patterns[pattern]
-            elif MAX_PATTERN - pattern in found_patterns:
+            elif found_patterns.get(MAX_PATTERN - pattern) in inputs_set:
                 outputs_negation_mapping[output] = found_patterns[MAX_PATTERN - pattern]
             else:
                 filtered_outputs.add(output)
